@@ -182,6 +182,7 @@ func VerifH_range_step() {
 	r, stop := w.p.Handler4(req, resp)
 	vnd.Unshare()
 
+	vnd.Assert(r != nil || stop, "C13 a built-in handler returns a nil response only together with stop")
 	vnd.Assert(vnd.HeldLocks() == 0, "C16 range plugin lock released")
 	post := w.alloc.VerifWords()
 	end := w.start + uint32(w.n) - 1
